@@ -109,6 +109,10 @@ def emitStr (s : Str) : Str := if needsQuotes s then quoted s else s
 
 def indentStr (n : Nat) : Str := List.replicate (2 * n) ' '
 
+/-- `str.isdigit()` on one char as far as section ids can contain it (ASCII digits; a section id comes from a
+NUMBER token via `str(int)`/`repr(float)`, or from an identifier, which never starts with a digit). -/
+def isDigitU (c : Char) : Bool := isDigitA c
+
 def isAbsent : Value → Bool | .absent => true | _ => false
 def isStr : Value → Bool | .str _ => true | _ => false
 
@@ -232,7 +236,7 @@ def emitNode (env : Env) : Node → Nat → Bool → Option (List Str)
     match value with
     | .absent => some []
     | .zone c t m =>
-      if inBlock && key.isEmpty then some (fenceLines ind c t m)
+      if inBlock && key.isEmpty then some (leadingLines env leading ind ++ fenceLines ind c t m)
       else emitAssignment env key value ind leading trailing
     | _ => emitAssignment env key value ind leading trailing
   | .block key children _ _ leading target, ind, _ =>
@@ -243,7 +247,9 @@ def emitNode (env : Env) : Node → Nat → Bool → Option (List Str)
   | .sect id key ann children _ _ leading, ind, _ =>
     (emitChildren env children (ind + 1) false).map fun cl =>
       leadingLines env leading ind
-      ++ [indentStr ind ++ ['§'] ++ id ++ "::".toList ++ key ++ (match ann with | some a => if a.isEmpty then [] else '[' :: a ++ [']'] | none => [])]
+      ++ [indentStr ind ++ ['§'] ++ id ++ "::".toList
+          ++ (if key == id && (match key.head? with | some c => isDigitU c || c == '-' | none => false) then [] else key)
+          ++ (match ann with | some a => if a.isEmpty then [] else '[' :: a ++ [']'] | none => [])]
       ++ cl
   | .comment text, ind, _ => some [commentLine env ind text]
 def emitChildren (env : Env) : List Node → Nat → Bool → Option (List Str)
